@@ -11,7 +11,7 @@ import subprocess
 import sys
 import tempfile
 
-NOT_BY_DESIGN = {"C09-d", "C19-c"}
+NOT_BY_DESIGN = {"C09-d", "C19-c", "C19-e"}
 
 
 def sh(cmd):
